@@ -298,8 +298,18 @@ def main():
     for fid, (hit, cnt) in sorted(known_hits.items()):
         print('KNOWN-FINDING: property=%s %s %s (%d cases in this run)' % (prop, fid, hit['text'], cnt))
 
+    # report at most 4 violations, preferring distinct codes
+    violations.sort(key=lambda v: v[2])
+    chosen, codes_seen = [], set()
+    for v in violations:
+        if v[2] not in codes_seen:
+            codes_seen.add(v[2])
+            chosen.append(v)
+    for v in violations:
+        if v not in chosen and len(chosen) < 2:
+            chosen.append(v)
     replay_paths = []
-    for hs, i, c, sig in violations[:3]:
+    for hs, i, c, sig in chosen[:4]:
         small = shrink(mod, prop, cases[i], c, hs, work)
         obs1, fails1 = evaluate(mod, prop, [small], hs, work, 'final')
         if not fails1:
